@@ -588,13 +588,15 @@ class Union(Structure, metaclass=UnionMetaType):
         object.__setattr__(self, "_sizes", sizes)
 
     def _proxify(self) -> None:
-        def _proxy_structure(value: Structure) -> None:
+        def _proxy_structure(value: Structure, member: str | None = None) -> None:
             for field in value.__class__.__fields__:
                 if issubclass(field.type, Structure):
                     nested_value = getattr(value, field._name)
-                    proxy = UnionProxy(self, field._name, nested_value)
+                    # A change anywhere below a union member is applied by rebuilding that member
+                    attr = member or field._name
+                    proxy = UnionProxy(self, attr, nested_value)
                     object.__setattr__(value, field._name, proxy)
-                    _proxy_structure(nested_value)
+                    _proxy_structure(nested_value, attr)
 
         _proxy_structure(self)
 
